@@ -37,7 +37,13 @@ fn layout(k: usize) -> Vec<Vec<u32>> {
     match k {
         2 => vec![vec![A], vec![0, A - 1, A + 1, MAX_CHAR]],
         3 => vec![vec![A], vec![B], vec![0, A - 1, B + 1, MAX_CHAR]],
-        _ => vec![vec![A], vec![B], vec![B + 1], vec![0, A - 1, B + 2, MAX_CHAR]],
+        4 => vec![vec![A], vec![B], vec![B + 1], vec![0, A - 1, B + 2, MAX_CHAR]],
+        _ => {
+            // k-1 single letters A, A+1, ... and 'other'
+            let mut v: Vec<Vec<u32>> = (0..k as u32 - 1).map(|i| vec![A + i]).collect();
+            v.push(vec![0, A - 1, A + k as u32 - 1, MAX_CHAR]);
+            v
+        }
     }
 }
 
@@ -563,6 +569,13 @@ fn find_renaming(a: &Automaton, n: usize, spec: &dyn Fn(usize, u32) -> usize, ch
 /// the families of a tier: (n, k, shapes)
 fn dfa_families(kind: DKind, tier: Tier) -> Vec<(usize, usize, Vec<usize>)> {
     let all: Vec<usize> = (0..NSHAPES).collect();
+    // exploration aid (not used by any registered command): VERIF_DFA_FAMILY=n,k,shape
+    if let Ok(f) = std::env::var("VERIF_DFA_FAMILY") {
+        let x: Vec<usize> = f.split(',').filter_map(|t| t.parse().ok()).collect();
+        if x.len() == 3 {
+            return vec![(x[0], x[1], vec![x[2]])];
+        }
+    }
     match tier {
         Tier::Quick => {
             let mut v = vec![(1, 3, all.clone()), (2, 3, all.clone()), (2, 4, all.clone()), (3, 3, vec![0, 1, 2, 4, 6, 7]), (3, 2, all.clone()), (4, 2, vec![0, 6])];
@@ -1645,4 +1658,175 @@ fn ring_c13(c: &RingCase, chars: &[u32], spec: &dyn Fn(usize, u32) -> usize, fin
         }
     }
     msgs
+}
+
+// =============================================================================================
+// "wide" automata: 5 to 12 (20) states over 4 to 9 letters. Letter 0 steps around a ring, every other letter follows
+// one of six simple maps. The refinement of such an automaton proceeds one split at a time and every split queues one
+// splitter per letter, so the number of refinement rounds grows with letters x states (the exhaustive families have at
+// most 4 letters and 3-5 states, the rings 3 letters).
+
+pub struct WideEngine {
+    pub kind: DKind,
+}
+
+#[derive(Clone, Debug)]
+struct WideCase {
+    n: usize,
+    letters: usize,
+    /// map code of letters 1..letters-1
+    maps: Vec<usize>,
+    d: usize,
+    fkind: usize,
+    /// which letter steps around the ring: 0 = the first single character, 1 = the last letter ('every other
+    /// character', the default successor), 2 = a letter in the middle
+    ring_pos: usize,
+}
+
+const WIDE_NB: usize = 32;
+const WIDE_MAPS: usize = 6;
+
+fn wide_delta(c: &WideCase, q: usize, letter: usize) -> usize {
+    let n = c.n;
+    let ring_letter = match c.ring_pos {
+        0 => 0,
+        1 => c.letters - 1,
+        _ => c.letters / 2,
+    };
+    if letter == ring_letter {
+        return (q + 1) % n;
+    }
+    // the other letters take the maps in order
+    let mi = if letter < ring_letter { letter } else { letter - 1 };
+    match c.maps[mi] {
+        0 => q,
+        1 => 0,
+        2 => (q + 2) % n,
+        3 => n - 1 - q,
+        4 => (2 * q) % n,
+        _ => n - 1,
+    }
+}
+fn wide_final(c: &WideCase, q: usize) -> bool {
+    if c.fkind == 0 {
+        q % c.d == 0
+    } else {
+        q < c.d
+    }
+}
+/// letter i < letters-1 is the single character A+i; the last letter is every other character (the default)
+fn wide_letter_of(c: &WideCase, ch: u32) -> usize {
+    if ch >= A && ((ch - A) as usize) < c.letters - 1 {
+        (ch - A) as usize
+    } else {
+        c.letters - 1
+    }
+}
+fn wide_chars(c: &WideCase) -> Vec<u32> {
+    let mut v: Vec<u32> = (0..c.letters as u32 - 1).map(|i| A + i).collect();
+    v.extend([0, A - 1, A + c.letters as u32 - 1, MAX_CHAR]);
+    v
+}
+fn wide_build(c: &WideCase, unchecked: bool) -> Result<Automaton, aws_smt_strings::errors::Error> {
+    let mut b = AutomatonBuilder::new(&0usize);
+    for q in 0..c.n {
+        for l in 0..c.letters - 1 {
+            b.add_transition(&q, &CharSet::singleton(A + l as u32), &wide_delta(c, q, l));
+        }
+        b.set_default_successor(&q, &wide_delta(c, q, c.letters - 1));
+        if wide_final(c, q) {
+            b.mark_final(&q);
+        }
+    }
+    finish_build(b, unchecked)
+}
+fn wide_cases(tier: Tier, kind: DKind) -> Vec<WideCase> {
+    let ns: Vec<usize> = if kind == DKind::C13 { vec![5, 6] } else if tier == Tier::Thorough { (5..=20).collect() } else { (5..=12).collect() };
+    let mut v = vec![];
+    for &n in &ns {
+        for letters in [4usize, 5, 6, 7, 9] {
+            let mut patterns: Vec<Vec<usize>> = vec![];
+            for m in 0..WIDE_MAPS {
+                patterns.push(vec![m; letters - 1]);
+                patterns.push((0..letters - 1).map(|i| (i + m) % WIDE_MAPS).collect());
+            }
+            for maps in patterns {
+                for (d, fkind) in [(2usize, 0usize), (3, 0), (n, 0), (2, 1)] {
+                    for ring_pos in 0..3 {
+                        v.push(WideCase { n, letters, maps: maps.clone(), d, fkind, ring_pos });
+                    }
+                }
+            }
+        }
+    }
+    v
+}
+fn wide_json(c: &WideCase) -> Value {
+    json!({"engine": "wide", "__engine": "wide", "n": c.n, "letters": c.letters, "maps": c.maps, "d": c.d, "fkind": c.fkind, "ring_pos": c.ring_pos})
+}
+
+impl WideEngine {
+    fn run_case(&self, c: &WideCase, rep: &mut Report) -> Vec<String> {
+        let chars = wide_chars(c);
+        let fin: Vec<bool> = (0..c.n).map(|q| wide_final(c, q)).collect();
+        let spec = |q: usize, ch: u32| wide_delta(c, q, wide_letter_of(c, ch));
+        automaton_case(self.kind, c.n, &|unchecked| wide_build(c, unchecked), &chars, &spec, &fin, true, rep)
+    }
+}
+
+impl Engine for WideEngine {
+    fn name(&self) -> &'static str {
+        "wide"
+    }
+    fn meta(&self, ctx: &Ctx) -> Meta {
+        let n = wide_cases(ctx.tier, self.kind).len();
+        Meta {
+            level: "model_checking",
+            rule: format!("{} 'wide' automata (5 to 12, thorough 20, states; 4 to 9 letters: one letter (the first, a middle one or the last = default) steps around a ring, each other letter follows one of 6 maps - stay, reset, +2, reflect, doubling, last - either all the same or staggered; 4 final sets) under the same oracle as the exhaustive families", n),
+            assumptions: vec![],
+            exhaustive: true,
+            space: format!("{} automata", n),
+        }
+    }
+    fn num_batches(&self, _ctx: &Ctx) -> usize {
+        WIDE_NB
+    }
+    fn run_batch(&self, ctx: &Ctx, batch: usize, rep: &mut Report) {
+        for (i, c) in wide_cases(ctx.tier, self.kind).iter().enumerate() {
+            if i % WIDE_NB != batch {
+                continue;
+            }
+            beat();
+            rep.inc("evaluations");
+            rep.inc("wide_automata");
+            if self.kind == DKind::C13 {
+                rep.inc("nontrivial");
+            }
+            publish_case(|| wide_json(c));
+            let msgs = self.run_case(c, rep);
+            unpublish_case();
+            if !msgs.is_empty() {
+                rep.violation(self.kind.id(), "wide", wide_json(c), format!("wide automaton {:?}: {}", c, msgs.join(" | ")));
+            }
+        }
+    }
+    fn replay(&self, _ctx: &Ctx, v: &Value, rep: &mut Report) {
+        let us = |x: &Value| x.as_u64().unwrap_or(0) as usize;
+        let maps: Vec<usize> = v["maps"].as_array().map(|a| a.iter().map(|y| y.as_u64().unwrap_or(0) as usize).collect()).unwrap_or_default();
+        let c = WideCase { n: us(&v["n"]), letters: us(&v["letters"]), maps, d: us(&v["d"]).max(1), fkind: us(&v["fkind"]), ring_pos: us(&v["ring_pos"]) };
+        if c.n < 2 || c.letters < 2 || c.maps.len() != c.letters - 1 {
+            return;
+        }
+        rep.inc("evaluations");
+        let msgs = self.run_case(&c, rep);
+        if !msgs.is_empty() {
+            rep.violation(self.kind.id(), "wide", v.clone(), msgs.join(" | "));
+        }
+    }
+    fn hang_is_violation(&self, _p: &str) -> bool {
+        true
+    }
+    fn max_group(&self, _ctx: &Ctx, _batch: usize) -> usize {
+        4
+    }
 }
